@@ -511,6 +511,42 @@ def r11_captions(chk, prog, rule='R11'):
                 [t for _, t in asg], ('mandatory', 'optional')[i], want[i]))
 
 
+def r12_default_value_available(chk, prog, rule='R12'):
+    """the usage prints "Default value: ..." for every optional argument whose print-default switch is on, by calling
+    the virtual defaultValue() - whose base implementation THROWS.  Every argument class that switches print-default
+    on in its constructor (third argument of the TypedArgBase constructor true) therefore overrides defaultValue():
+    otherwise printing the usage of a handler that owns such an argument ends in an exception in the middle of the
+    list"""
+    T = 'celma::prog_args::detail::TypedArgBase'
+    base = prog.one(T, 'defaultValue')
+    chk.require(any(x.get('k') == 'CXXThrowExpr' for x in base.walk()), 'TypedArgBase::defaultValue() no longer throws')
+    n = 0
+    seen = set()
+    for f in prog.functions:
+        if not f.d.get('ctor') or not f.cls or f.cls in seen:
+            continue
+        on = None
+        for ini in f.inits:
+            init = ini.get('init')
+            if not isinstance(init, dict):
+                continue
+            i0 = strip_all_casts(init)
+            if i0.get('k') == 'CXXConstructExpr' and (i0.get('callee') or '').endswith('TypedArgBase::TypedArgBase'):
+                a = children(i0)
+                if len(a) >= 3:
+                    v = strip_all_casts(a[2])
+                    on = v.get('val') if v.get('k') == 'CXXBoolLiteralExpr' else 'param'
+        if on is not True:
+            continue
+        seen.add(f.cls)
+        n += 1
+        own = [g for g in prog.functions if g.cls == f.cls and g.short == 'defaultValue']
+        chk.check(bool(own), rule, f.name, 'an argument class that prints its default value in the usage provides '
+                  'defaultValue()', f.loc(), 'print-default is switched on in the constructor, but defaultValue() is '
+                  'the throwing base implementation: the usage of a handler with such an argument ends in an exception')
+    chk.require(n >= 2, 'argument classes with print-default on: %d' % n)
+
+
 def r4_one_settings_object(chk, prog):
     """'visible under the CURRENT settings': the usage settings (print hidden / deprecated, short-only / long-only)
     live in one UsageParams object per handler family; the arguments that change them at run time write into that
@@ -590,6 +626,8 @@ def run(chk):
     r10_listing_data_is_configuration(chk, prog)
     chk.rule('R11', 'each pass prints its own caption; setCaption() sets them in the documented order', 3)
     r11_captions(chk, prog)
+    chk.rule('R12', 'every argument class with print-default on provides defaultValue()', 2)
+    r12_default_value_available(chk, prog)
     chk.rule('R9', 'isMandatory/isHidden/isDeprecated report the configured properties', 7)
     r9_property_getters(chk, prog)
     chk.rule('R8', 'every display setting is switched by the argument / start flag named after it', 15)
